@@ -66,6 +66,8 @@ def main():
             print(f'{name:28s} {pid}  {verdict:8s} {kinds}  {round(time.time() - t0)}s')
         finally:
             sh(f'git -C /repo worktree remove --force {wt}')
+            import hashlib
+            sh('rm -rf ' + os.path.join(HERE, '.work', 'scratch-coq', hashlib.sha1(os.path.realpath(wt).encode()).hexdigest()[:12]))
         with lock:
             json.dump(results, open(res_path, 'w'), indent=1)
 
